@@ -248,7 +248,7 @@ func cmdCheck(args []string) {
 	}
 	findings := loadFindings(filepath.Join(*outDir, "known_findings.txt"))
 	for _, k := range findings {
-		if !k.Fixed && k.Prop == cfg.ID && k.When != nil && k.Func != "" {
+		if !k.Fixed && k.When != nil && k.Func != "" {
 			if KnownWhen[k.Func] == nil {
 				KnownWhen[k.Func] = map[string]*Sx{}
 			}
@@ -272,7 +272,7 @@ func cmdCheck(args []string) {
 	problem := func(kind, fn, name, detail string, o *Obligation, sess *Session) {
 		// known finding?
 		for _, k := range findings {
-			if !k.Fixed && k.When == nil && k.Prop == cfg.ID && k.Obligation == name && (k.Func == "" || k.Func == shortName(fn)) {
+			if !k.Fixed && k.When == nil && k.Obligation == name && (k.Func == "" || k.Func == shortName(fn)) {
 				knownLines = append(knownLines, fmt.Sprintf("KNOWN-FINDING: property=%s %s %s -- %s", cfg.ID, shortName(fn), name, k.What))
 				return
 			}
@@ -488,8 +488,8 @@ func cmdCheck(args []string) {
 				if o.Kind == "known" {
 					if o.Result == "sat" {
 						for _, k := range findings {
-							if !k.Fixed && k.Prop == cfg.ID && k.Func == shortName(n) && k.Obligation == "post."+o.Label {
-								knownLines = append(knownLines, fmt.Sprintf("KNOWN-FINDING: property=%s %s %s when=%s -- %s", cfg.ID, shortName(n), k.Obligation, k.When, k.What))
+							if !k.Fixed && k.Func == shortName(n) && k.Obligation == "post."+o.Label {
+								knownLines = append(knownLines, fmt.Sprintf("KNOWN-FINDING: property=%s %s %s when=%s -- %s", k.Prop, shortName(n), k.Obligation, k.When, k.What))
 							}
 						}
 					}
